@@ -206,6 +206,10 @@ type World struct {
 
 	Served []Served
 
+	// FailNext: sequences ("pts" = common, "c<id>") whose next difference request fails with a
+	// transient RPC error (nothing is served).
+	FailNext map[string]bool
+
 	// Extra: other_updates the next non-too-long answer for a sequence ("pts" = common difference,
 	// "c<id>") will carry in addition: updates of OTHER sequences, position-less updates, updates of
 	// unknown channels, forwarded by the server inside this difference.
@@ -219,7 +223,7 @@ type World struct {
 }
 
 func NewWorld(log []Entry, p0, q0 int, c0 map[int64]int) *World {
-	return &World{Log: log, P0: p0, Q0: q0, C0: c0, ChanTooLong: map[int64]bool{}, Extra: map[string][]int{}, inDiff: map[int64]bool{},
+	return &World{Log: log, P0: p0, Q0: q0, C0: c0, ChanTooLong: map[int64]bool{}, Extra: map[string][]int{}, FailNext: map[string]bool{}, inDiff: map[int64]bool{},
 		lastFinal: map[int64]bool{}, genuineTL: map[int64]int{}}
 }
 
@@ -264,6 +268,11 @@ func (w *World) commonDifference(pts, qts int) tg.UpdatesDifferenceClass {
 	w.mu.Lock()
 	defer w.mu.Unlock()
 	sp, sq := w.serverState()
+	if w.FailNext["pts"] {
+		delete(w.FailNext, "pts")
+		w.Served = append(w.Served, Served{Seq: "pts", Kind: "error"})
+		return nil
+	}
 	if w.TooLongNext {
 		w.TooLongNext = false
 		w.Served = append(w.Served, Served{Seq: "pts", Kind: "toolong", ToPts: sp})
@@ -335,6 +344,11 @@ func (w *World) channelDifference(c int64, pts int) tg.UpdatesChannelDifferenceC
 	sp := w.chanState(c)
 	// a new request: whatever was answered before has been processed completely
 	w.inDiff[c] = false
+	if w.FailNext[seq] {
+		delete(w.FailNext, seq)
+		w.Served = append(w.Served, Served{Seq: seq, Kind: "error"})
+		return nil
+	}
 	if w.ChanTooLong[c] {
 		w.ChanTooLong[c] = false
 		w.genuineTL[c]++
